@@ -238,12 +238,13 @@ def run_group(group, repo='/repo', outdir=None, seed=0, rlimit=None, extra_args=
     extras = []
     bare = []
     drop = {}
+    helper_callers = {}
     res = None
     for _round in range(8):
         res = _run_group(group, repo, outdir, seed, rlimit, extra_args, log_air, timeout, extras, bare, drop)
         if res['status'] != 'undecided' or not res.get('undecided'):
             break
-        new = find_missing_helpers(res, repo, extras)
+        new = find_missing_helpers(res, repo, extras, helper_callers)
         if new:
             extras += new
             continue
@@ -270,12 +271,44 @@ def run_group(group, repo='/repo', outdir=None, seed=0, rlimit=None, extra_args=
         bare += nb
     if extras:
         res['auto_extracted_helpers'] = ['%s :: %s' % (f, ' :: '.join(sg)) for f, sg in extras]
+    # A failing obligation is a verdict only when the complete proof script that verifies the unchanged tree was applied.
+    # If a proof aid of the unit could not be placed (anchor lost), had to be dropped (no longer type-checks), or the unit now
+    # calls a helper that has no contract, the failure may be the missing aid's: UNDECIDED, never a violation.
+    compromised = {}
+    for u in (res.get('map') or {}).get('units', []):
+        why = []
+        if u.get('lost_anchors'):
+            why.append('proof aid could not be placed: ' + '; '.join(u['lost_anchors'][:3]))
+        if u.get('dropped_aids'):
+            why.append('proof aid dropped (no longer type-checks): ' + '; '.join(map(str, u['dropped_aids'][:3])))
+        if u['unit'] in bare:
+            why.append('all proof aids dropped')
+        if u['unit'] in helper_callers:
+            why.append('calls a function without contract: ' + ', '.join(sorted(helper_callers[u['unit']])))
+        if any(r_[0] != 'fuzzy' and str(r_[1]).startswith('ANCHOR LOST') for r_ in u.get('rules', [])):
+            why.append('substitution anchor lost: ' + '; '.join(str(r_[1]) for r_ in u.get('rules', []) if str(r_[1]).startswith('ANCHOR LOST'))[:200])
+        if why:
+            compromised[u['unit']] = '; '.join(why)
+    if compromised:
+        keep = []
+        for c in res.get('diags', []):
+            if c.get('unit') in compromised:
+                res.setdefault('undecided', []).append(dict(message='obligation %s fails, but the unit was not verified with its full proof script (%s)' % (
+                    c.get('label') or c.get('kind'), compromised[c['unit']]), code=None, unit=c['unit'], src=c.get('src'), rendered=c.get('rendered'), woven_line=c.get('woven_line')))
+            else:
+                keep.append(c)
+        if len(keep) != len(res.get('diags', [])):
+            res['diags'] = keep
+            if res['status'] == 'ok':
+                res['status'] = 'undecided'
+                res['reason'] = '; '.join('%s (%s)' % (u_['message'][:160], u_['unit']) for u_ in res['undecided'][:2])
+        res['compromised_units'] = compromised
     if bare or drop:
         res['proof_aids_dropped'] = dict(all_aids_of=bare, single={k: sorted(v) for k, v in drop.items()})
     return res
 
 
-def find_missing_helpers(res, repo, have):
+def find_missing_helpers(res, repo, have, callers=None):
     from rsx import Source
     out = []
     mp = res.get('map') or {}
@@ -302,6 +335,8 @@ def find_missing_helpers(res, repo, have):
             if any(x['file'] == unit['file'] and [sg.strip() for sg in x['item'].split(' :: ')] == c for x in mp.get('units', [])):
                 continue
             key = (unit['file'], c)
+            if callers is not None:
+                callers.setdefault(unit['unit'], set()).add(name)
             if key not in [(f, sg) for f, sg in have + out]:
                 out.append(key)
             break
